@@ -1053,7 +1053,8 @@ class Node:
                     must_keep = True
                 elif isinstance(res, SkipBranch):
                     if res.and_self is False:
-                        remove_nodes = n.children
+                        n.remove_children()
+                        must_keep = True
                     else:
                         remove_nodes.append(n)
                 elif isinstance(res, StopTraversal):
